@@ -10,8 +10,10 @@ open Draco Draco.DecM
 theorem zipWith_len (f : Int → Int → Int) (p c : List Int) (nc : Nat) (hp : p.length = nc) (hc : c.length = nc) :
     (List.zipWith f p c).length = nc := by simp [hp, hc]
 
-theorem post_symbols (k nc : Nat) : Post (lift (Leaf.decodeSymbols (k * nc) nc)) (fun l => l.length = k * nc) :=
-  post_lift (fun bs a rest h => decodeSymbols_length k nc bs a rest h)
+theorem post_symbols (k nc : Nat) : Post (decodeSymbolsM (k * nc) nc) (fun l => l.length = k * nc) := by
+  intro s a s' h
+  unfold decodeSymbolsM at h
+  exact post_lift (fun bs a rest h => decodeSymbols_length k nc bs a rest h) _ a s' h
 
 theorem decodeIntegerValues_length (kind ne nc : Nat) :
     Post (decodeIntegerValues kind ne nc) (fun vals => vals.length = ne * nc) := by
